@@ -87,7 +87,10 @@ def op_stats(scens, streams):
     return {'ops': ops, 'results': res, 'executed_events': sum(1 for st in streams for l in st if l.startswith('ev '))}
 
 
+PROPS['C01']['exhaustive'] = [('envx', 4)]
+PROPS['C07']['exhaustive'] = [('envx', 4)]
 PROPS['C09'] = dict(
+    exhaustive=[('rmx', 4)],
     modules=['SimProc.Props.C09'], prop_files=['SimProc/Props/C09.lean'],
     families=[('rm', 400, 8000)],
     tags=tags(*BASE, 'r', 'h', 'hsum', 'rec'),
@@ -102,6 +105,7 @@ PROPS['C09'] = dict(
                  'amounts are integers (no float rounding)'],
 )
 PROPS['C10'] = dict(
+    exhaustive=[('rmx', 4)],
     modules=['SimProc.Props.C10', 'SimProc.Props.Facts'], prop_files=['SimProc/Props/C10.lean'],
     families=[('rm', 400, 8000)],
     tags=tags(*BASE, 'wq', 'r'),
